@@ -258,13 +258,16 @@ open Enum
 
 /-- the witness of "12xx" is in the class and the model accepts the word; `inClass` separates: the witness
     "1"·"2" of "12" for `r"[0-9]*" r"[0-9]*"` is not in the class (the first regex reads both digits), and it
-    fails at leaf 0, a regex leaf -/
+    fails at leaf 0, a regex leaf; the tag-free walk (hypothesis of `C05_untagged_in_class`) agrees on both -/
 theorem C05_inClass_example :
     inClass (digitsInp [49, 50, 120, 120]) false [.text [49, 50], .text [120], .text [120]] [some 0, none, none] = true ∧
     accepts exG (digitsInp [49, 50, 120, 120]) 3 2 "<start>" = true ∧
     accepts exG (digitsInp [49, 50, 120, 120, 120]) 3 2 "<start>" = false ∧
-    firstFail (digitsInp [49, 50]) false [.text [49], .text [50]] [some 0, some 0] 0 0 = some (0, true) := by
-  refine ⟨by decide +kernel, by decide +kernel, by decide +kernel, by decide +kernel⟩
+    firstFail (digitsInp [49, 50]) false [.text [49], .text [50]] [some 0, some 0] 0 0 = some (0, true) ∧
+    firstFailU (digitsInp [49, 50, 120, 120]) false exR [0] [.text [49, 50], .text [120], .text [120]] 0 0 = none ∧
+    firstFailU (digitsInp [49, 50]) false exR [0] [.text [49], .text [50]] 0 0 = some (0, true) := by
+  refine ⟨by decide +kernel, by decide +kernel, by decide +kernel, by decide +kernel, by decide +kernel,
+    by decide +kernel⟩
 
 /-! ## 4. the current code on the three classes the check was written around -/
 
